@@ -71,6 +71,11 @@ func (w *World) point(kind string, obj any) {
 	name, ok := w.gnames[gid]
 	if !ok {
 		lab := fineLabel()
+		if an, isAPI := w.apiNames[gid]; isAPI && lab == "api" {
+			// several API calls can be in flight in one window: name the goroutine after
+			// its script item, not after the order in which the goroutines got going
+			lab = "api:" + an
+		}
 		w.glabels[lab]++
 		name = fmt.Sprintf("%s#%d", lab, w.glabels[lab])
 		w.gnames[gid] = name
